@@ -299,13 +299,13 @@ fn c13_vacuity_twin() {
 }
 
 // ======================================================================== L7: the search loop, C10: finder reuse
-static mut STUB_TABLES: [[u32; 16]; 2] = [[0; 16]; 2];
+static mut STUB_TABLES: [[u32; 16]; 4] = [[0; 16]; 4];
 static mut STUB_CALLS: usize = 0;
 fn from_errors_stub(_errors: &[u32], _offset: usize) -> PrcBitTable {
     unsafe {
         let k = STUB_CALLS;
         STUB_CALLS += 1;
-        PrcBitTable { p_to_bits: simd::u32x16::from_array(STUB_TABLES[k % 2]) }
+        PrcBitTable { p_to_bits: simd::u32x16::from_array(STUB_TABLES[k % 4]) }
     }
 }
 
@@ -381,7 +381,54 @@ fn c13_l7_find_searches_all_orders() {
     std::mem::forget(finder);
 }
 
+//@ prop: C13
+//@ drives: PrcParameterFinder::find (three partition orders: 2 -> 1 -> 0), eval_partitions, merge_partitions
+//@ bound: a 256-sample block (finest order 2: 4 partitions of 64) with warm-up 0; the four per-partition cost tables are ARBITRARY (every lane in 4..=2^28-1), every max parameter 0..=14
+//@ asserts: code_bits is the minimum over orders 2, 1 and 0 (the cost need not be monotone in the order: a coarser order may win after a finer one lost); the returned order attains it and 2^order parameters are returned
+//@ stubs: PrcBitTable::from_errors -> the arbitrary tables
+#[kani::proof]
+#[kani::unwind(260)]
+#[kani::stub(super::PrcBitTable::from_errors, from_errors_stub)]
+fn c13_l7_find_three_levels() {
+    let mut raw = [[0u64; 16]; 4];
+    let mut k = 0;
+    while k < 4 {
+        let t = any_table();
+        let mut p = 0;
+        while p < 16 {
+            raw[k][p] = t.p_to_bits[p] as u64;
+            unsafe { STUB_TABLES[k][p] = t.p_to_bits[p]; }
+            p += 1;
+        }
+        k += 1;
+    }
+    unsafe { STUB_CALLS = 0; }
+    let max_p: usize = kani::any();
+    kani::assume(max_p <= 14);
+    let signal = [0i32; 256];
+    let mut finder = PrcParameterFinder::default();
+    let r = finder.find(&signal, 0, max_p);
+    assert!(unsafe { STUB_CALLS } == 4);
+    let o2 = min_lane(&raw[0], max_p) + min_lane(&raw[1], max_p) + min_lane(&raw[2], max_p) + min_lane(&raw[3], max_p);
+    let m01 = sat_merge(&raw[0], &raw[1]);
+    let m23 = sat_merge(&raw[2], &raw[3]);
+    let o1 = min_lane(&m01, max_p) + min_lane(&m23, max_p);
+    let m = sat_merge(&m01, &m23);
+    let o0 = min_lane(&m, max_p);
+    let best = if o2 <= o1 && o2 <= o0 { o2 } else if o1 <= o0 { o1 } else { o0 };
+    assert!(r.code_bits as u64 == best);
+    assert!(r.order <= 2 && r.ps.len() == 1usize << r.order);
+    let attained = match r.order { 2 => o2, 1 => o1, _ => o0 };
+    assert!(attained == best);
+    kani::cover!(r.order == 0 && o1 > o2);
+    kani::cover!(r.order == 1);
+    kani::cover!(r.order == 2);
+    std::mem::forget(r);
+    std::mem::forget(finder);
+}
+
 //@ prop: C10
+//@ tier: thorough
 //@ drives: PrcParameterFinder::find on a reused finder (PRC_FINDER scratch state: errors, tables, ps, min_ps)
 //@ bound: a 128-sample block (2 partitions) of a fixed ramp signal, warm-up 2, max parameter 14; the finder holds arbitrary previous state: vectors of length 0, 3 or 9 with arbitrary content (what a previous call with other sizes leaves)
 //@ asserts: order, parameters and code_bits equal those of a fresh finder (the result depends on the arguments only)
